@@ -93,3 +93,14 @@ Lemma wv_spm_example :
   spm_encode wv_spm (of_runes [97; 98; 32; 98; 233]%N) false = [257; 0; 259; 196; 170]%Z /\
   containsb (of_runes [97; 98; 32; 98; 233]%N) sep = false /\ no_shape_b (of_runes [97; 98; 32; 98; 233]%N) = true.
 Proof. vm_compute. repeat split; reflexivity. Qed.
+
+(** a control token whose literal contains a space ("<e t>", id 260): Encode splits on special literals FIRST, on the raw
+    text, and escapes spaces to U+2581 only inside the remaining text fragments - so the literal is found although it
+    contains a space, and the spaces around it become U+2581 tokens *)
+Definition wv_spm2 : vocab :=
+  vocab_of (sep :: map byte_token all_bytes ++ [[97; 98]%N; [97]%N; [98]%N; [60; 101; 32; 116; 62]%N])
+           (repeat 1%N 260 ++ [3%N]) (repeat 0%Z 261) [] 0 0 false false.
+Lemma wv_spm2_spaced_special :
+  spm_encode wv_spm2 [97; 32; 60; 101; 32; 116; 62; 32; 98]%N false = [258; 0; 260; 0; 259]%Z /\
+  spm_decode wv_spm2 [258; 0; 260; 0; 259]%Z = DOk [97; 32; 60; 101; 32; 116; 62; 32; 98]%N.
+Proof. vm_compute. split; reflexivity. Qed.
